@@ -481,6 +481,15 @@ def derivative_forms(ctx, block):
     ttm = (steps[-1] - steps).unsqueeze(0).expand(N, -1)
     vol = torch.full_like(spot, sigma)
     live = slice(0, T - 1)       # columns with time to maturity > 0 (t = 0 belongs to C18)
+    # the derivative's time grid against the EXACT grid (T-1-i)*dt (python float arithmetic on the python-float dt):
+    # two roundings of the dtype at most (k*dt and the difference) -> 4 eps relative to the horizon
+    exact_t = torch.tensor([[(T - 1 - i) * dt for i in range(T)]], dtype=torch.float64)
+    got_t = deriv.time_to_maturity().to(torch.float64)
+    ctx.tick(T, nontrivial=T)
+    if tuple(got_t.shape) != (N, T) or bool(((got_t - exact_t).abs() > 4 * eps * (T - 1) * dt).any()):
+        ctx.violation(f"{type(deriv).__name__}.time_to_maturity", "time_grid_not_exact_in_underlier_dtype",
+                      f"time_to_maturity() of a {block['dtype']} derivative with dt={dt} is {got_t[0].tolist()}, the grid is {exact_t[0].tolist()}",
+                      observed=got_t[0].tolist(), expected=exact_t[0].tolist(), block=block, family="derivative_forms")
     ref = call_functional(product, lm, mlm, ttm, vol, K, call)[:, live]
     names = ["log_moneyness", "max_log_moneyness", "time_to_maturity", "volatility"] if HAS_MAX[product] \
         else ["log_moneyness", "time_to_maturity", "volatility"]
@@ -540,13 +549,18 @@ def derivative_forms(ctx, block):
             continue
         ctx.tick(3 * N, nontrivial=3 * N if i < 0 else 0)
         for what, got, full in (("log_moneyness", lm_i, lm), ("max_log_moneyness", mx_i, mlm), ("time_to_maturity", tt_i, ttm)):
-            if tuple(got.shape) != (N, 1) or not _bitwise_equal(got, full[:, [j]]):
+            if what == "time_to_maturity":
+                # (T-1-i)*dt in one rounding vs the difference of two grid times: equal up to 4 eps of the horizon
+                same_ = tuple(got.shape) == (N, 1) and bool(((got - full[:, [j]]).abs() <= 4 * eps * (T - 1) * dt).all())
+            else:
+                same_ = tuple(got.shape) == (N, 1) and _bitwise_equal(got, full[:, [j]])
+            if not same_:
                 ctx.violation(f"{type(deriv).__name__}.{what}(time_step)", "step_accessor_differs_from_step_" + ("negative_alias" if i < 0 else "index"),
                               f"{what}({i}) != the value at step {j} computed from the buffer (strike {K})",
                               observed=got.flatten()[:4].tolist(), expected=full[:, j][:4].tolist(), block=block, family="derivative_forms")
         if j < T - 1 and tuple(mx_i.shape) == (N, 1):
             o = main.price(lm_i, mx_i, tt_i, vol[:, [j]]) if HAS_MAX[product] else main.price(lm_i, tt_i, vol[:, [j]])
-            r_ = call_functional(product, lm, mlm, ttm, vol, K, call)[:, [j]]
+            r_ = call_functional(product, lm[:, [j]], mlm[:, [j]], tt_i, vol[:, [j]], K, call)
             ctx.tick(N, nontrivial=N)
             if not _bitwise_equal(o, r_):
                 jj = _first_diff(o, r_)
@@ -700,6 +714,55 @@ def flag_table(ctx, block):
                     ctx.violation(site, "price_not_for_the_derivatives_flag_" + ("call" if call else "put"),
                                   f"{label}({type(deriv).__name__}(call={call})).price() != {SITE[product]}(call={call})",
                                   observed=float(out[0, 0]), expected=float(ref[0, 0]), block=mb, family="flag_table")
+
+
+@family
+def integer_forms(ctx, block):
+    """Exactly ONE integer-dtype tensor, at every argument position, all other arguments python numbers (and the variants
+    with a float tensor first): the result (default dtype float32) must be the expectation at the real values, to
+    float32 accuracy.  block: product, positions (optional)."""
+    product = block["product"]
+    num = {"s": -0.125, "m": 0.25, "t": 1.5, "v": 0.25}
+    ints = {"s": [-1, 0], "m": [0, 1], "t": [1, 2, 5], "v": [1, 2]}
+    eps32 = torch.finfo(torch.float32).eps
+    K = block.get("strike", 2.5)
+    memo = {}
+    for call in ([True, False] if HAS_PUT[product] else [True]):
+        for pos in (("s", "m", "t", "v") if HAS_MAX[product] else ("s", "t", "v")):
+            if block.get("positions") and pos not in block["positions"]:
+                continue
+            a = dict(num)
+            a[pos] = torch.tensor(ints[pos])
+            if product == "american_binary" and pos != "m":
+                a["m"] = torch.tensor(0.25)       # documented (and only accepted) as a tensor
+            mb = dict(block, positions=[pos])
+            try:
+                out = call_functional(product, a["s"], a["m"], a["t"], a["v"], K, call)
+            except (RuntimeError, TypeError, ValueError, AttributeError) as e:
+                ctx.tick(1)
+                ctx.violation(SITE[product], f"single_integer_tensor_{pos}_raises:{type(e).__name__}",
+                              f"{SITE[product]} with an integer tensor for '{pos}' and python numbers elsewhere raised {e}",
+                              observed=repr(e)[:200], expected="E[payoff]", block=mb, family="integer_forms")
+                continue
+            n = len(ints[pos])
+            ctx.tick(n, nontrivial=n)
+            if tuple(out.shape) != (n,) or not out.dtype.is_floating_point:
+                ctx.violation(SITE[product], f"single_integer_tensor_{pos}_shape_or_dtype", f"shape {tuple(out.shape)} dtype {out.dtype}",
+                              observed=[list(out.shape), str(out.dtype)], expected=[[n], "floating"], block=mb, family="integer_forms")
+                continue
+            for j, x in enumerate(ints[pos]):
+                v_ = {k: (float(x) if k == pos else num[k]) for k in num}
+                exp = unit_expectation(product, v_["s"], v_["m"] if HAS_MAX[product] else None, v_["t"], v_["v"], call, memo) \
+                    * (K if product in ("european", "lookback") else 1)
+                tol = C_TOL * eps32 * scale_of(product, v_["s"], v_["m"], v_["t"], v_["v"], K)
+                g = float(out[j])
+                if not (g == g and abs(mp.mpf(g) - exp) <= tol):
+                    ctx.violation(SITE[product], f"single_integer_tensor_{pos}_python_numbers_truncated",
+                                  f"{SITE[product]} with integer tensor {pos}={ints[pos]} and python numbers "
+                                  f"{dict((k, w_) for k, w_ in num.items() if k != pos)} (call={call}, K={K}) returns {out.tolist()}; "
+                                  f"E[payoff] at {pos}={x} is {float(exp)}", observed=g, expected=float(exp), block=mb, family="integer_forms")
+                    break
+    ctx.outcome(("integer_forms", product))
 
 
 ATTR_OPS = ("flip_call", "set_strike", "copy", "deepcopy")
@@ -1381,12 +1444,17 @@ def run(ctx):
                 for off in (-2, -1, 2):
                     extra.append(dict(b0, maturity_offset=off, T=4 if off < 0 else 3, oracle=orc and (off != -1 or ctx.thorough)))
                 extra.append(dict(b0, under="brownian", mu=0.5, maturity_offset=2, oracle=False))
+                # step sizes that float32 cannot represent (market.DT and the other worlds are dyadic): the time grid handed to
+                # the formulas must be the (T-1-i)*dt of the underlier's dtype
+                for dt_x in (1 / 250, 0.01):
+                    extra.append(dict(b0, dt=dt_x, T=4, oracle=orc and dt_x == 0.01 and product in ("european", "lookback")))
                 if USER_SUBCLASS_WORLDS:      # optional diagnostic, not part of the claim
                     extra.append(dict(b0, fx=1.25, oracle=orc))       # user subclass overriding moneyness()
                     extra.append(dict(b0, fx=0.5, strike=0.5, A=[0.75, 1.0, 1.5], oracle=False))
     ctx.alphabet("underlier drift mu", [0.5, -0.25, 0.125])
     ctx.alphabet("maturity minus grid horizon (steps)", [-2, -1, 2])
     jobs += [(30, "derivative_forms", b) for b in dblocks + atm + extra]
+    jobs += [(20, "integer_forms", {"product": product}) for product in PRODUCTS]
     # ---- attribute-mutation histories on the modules ----
     ahist = [list(h) for d in range(1, ctx.pick(3, 4) + 1) for h in itertools.product(ATTR_OPS, repeat=d)]
     for product in PRODUCTS:
